@@ -526,7 +526,9 @@ func checkCommitStructure(p *Prog, r *Roles, res *Result) {
 	}
 }
 
-func instrDominatesBlock(b *ssa.BasicBlock, ins ssa.Instruction) bool { return b.Dominates(ins.Block()) }
+func instrDominatesBlock(b *ssa.BasicBlock, ins ssa.Instruction) bool {
+	return b.Dominates(ins.Block())
+}
 
 func reachesBlock(a, b *ssa.BasicBlock) bool {
 	seen := map[*ssa.BasicBlock]bool{}
@@ -926,6 +928,7 @@ func checkC12(p *Prog, res *Result, tier string) {
 	res.rule("C12-R0", "C11-R1 / R5 / R6 / R7 (sibling agreement of the adapters and the wrapper)", 30)
 	res.rule("C12-R1", "the backend's write paths dispatch only on the error classes of the adapter table", 5)
 	res.rule("C12-R2", "SupportTTL is consulted only by the scanner's expiry code", 2)
+	res.rule("C12-R3", "the in-process engine's iterator yields snapshot copies: live skip-list elements are dereferenced only under the store lock (C19-R3)", 4)
 
 	sub := newResult("C11")
 	checkC11(p, sub, tier)
@@ -936,6 +939,15 @@ func checkC12(p *Prog, res *Result, tier string) {
 	}
 	for k, v := range sub.Stats {
 		res.Stats[k] = v
+	}
+
+	// R3: iterators of the in-process engine hand out snapshot copies, as the other engines do (C19-R3)
+	sub19 := newResult("C19")
+	checkElementAccess(p, p.lockContext(), sub19)
+	for _, o := range sub19.Obls {
+		if strings.Contains(o.Construct, "pkg/storage/memkv") {
+			res.add("C12-R3", o.Rule+" "+o.Construct, o.Status, o.Pos, o.Detail)
+		}
 	}
 
 	// R1
